@@ -1,0 +1,46 @@
+// Copyright 2021-present The Atlas Authors. All rights reserved.
+// This source code is licensed under the Apache 2.0 license found
+// in the LICENSE file in the root directory of this source tree.
+
+//go:build verif
+
+package migrate
+
+import (
+	"fmt"
+	"os"
+	"strconv"
+	"strings"
+)
+
+// verifPoint is a named crash point. The process-wide sequence number of reached points is kept in
+// the environment (VERIF_POINT_SEQ) so that the packages that define points share one counter.
+// VERIF_POINT_LOG=<file> appends every reached point to the file.
+// VERIF_CRASH_AT=<name>:<n> exits the process (status 137, no deferred code) when point <name> is reached
+// for the n-th time; VERIF_CRASH_AT=*:<k> exits at the k-th point reached overall.
+func verifPoint(name string) {
+	seq, _ := strconv.Atoi(os.Getenv("VERIF_POINT_SEQ"))
+	seq++
+	os.Setenv("VERIF_POINT_SEQ", strconv.Itoa(seq))
+	cnt, _ := strconv.Atoi(os.Getenv("VERIF_POINT_CNT_" + name))
+	cnt++
+	os.Setenv("VERIF_POINT_CNT_"+name, strconv.Itoa(cnt))
+	if log := os.Getenv("VERIF_POINT_LOG"); log != "" {
+		if f, err := os.OpenFile(log, os.O_APPEND|os.O_CREATE|os.O_WRONLY, 0o644); err == nil {
+			fmt.Fprintf(f, "%d %s %d\n", seq, name, cnt)
+			f.Close()
+		}
+	}
+	spec := os.Getenv("VERIF_CRASH_AT")
+	if spec == "" {
+		return
+	}
+	parts := strings.SplitN(spec, ":", 2)
+	if len(parts) != 2 {
+		return
+	}
+	n, _ := strconv.Atoi(parts[1])
+	if parts[0] == "*" && n == seq || parts[0] == name && n == cnt {
+		os.Exit(137)
+	}
+}
